@@ -123,6 +123,13 @@ func confirmPending(r *vk.Run) {
 		var v *vk.Violation
 		if errors.As(verr, &v) {
 			v.Scenario, v.Trace = p.sc.name, p.hist
+			// it failed twice in this process, which has opened and closed thousands of
+			// clusters by now: what is reported must also fail in a fresh process
+			if !r.FreshReplay(v, 2) {
+				r.Unconfirmed(v.Fingerprint + " after " + strings.Join(p.hist, "; ") + ": " + v.Detail)
+				inconclusive.Add(1)
+				continue
+			}
 			r.Report(v)
 		} else {
 			inconclusive.Add(1)
@@ -791,6 +798,12 @@ func (s *sys) Apply(op string) (obs string, err error) {
 		if wantSecond == "refused" && e2 == nil {
 			_ = tx.Close()
 			return "", vk.Violationf("name-taken-earlier-in-the-transaction-accepted", "%s: the second call of the transaction was accepted although the first one had given the name %q to another channel", op, "p")
+		}
+		if wantSecond == "accepted" && e2 != nil && f[2] != fmt.Sprint(g) {
+			// The channel is leased to another node: that node runs its part in a transaction
+			// of its own, which the gateway's open transaction cannot show anything to. Whether
+			// the name counts as free there is not promised; the refused create staged nothing.
+			wantSecond = "either"
 		}
 		if wantSecond == "accepted" && e2 != nil {
 			_ = tx.Close()
